@@ -77,12 +77,18 @@ bool g_fn_req_detached;
 int g_expect_status;
 
 /* abstract heap + call records */
-size_t g_q_size;
-size_t g_q_top_i;                 /* arena index of the task at the top (meaningful when g_q_size > 0) */
+struct ts_q {
+    size_t size;
+    size_t top_i; /* arena index of the task at the top (meaningful when size > 0) */
+    size_t ntop;  /* number of top() calls */
+} g_q;            /* one object, so that callers that change all of it name one assigns target */
+#define g_q_size g_q.size
+#define g_q_top_i g_q.top_i
+#define g_q_ntop g_q.ntop
 struct aws_task *g_q_slot[VERIF_TS_K]; /* g_q_slot[i] == &g_tk[i], never written: top() hands out &g_q_slot[g_q_top_i] */
 #define g_q_top (&g_tk[g_q_top_i])
 bool g_q_push_fails;
-size_t g_q_npush, g_q_ntop, g_q_nremove;
+size_t g_q_npush, g_q_nremove;
 struct aws_task *g_q_pushed;                 /* the element handed to push_ref               */
 uint64_t g_q_pushed_ts;                      /* its time stamp AT THE MOMENT of the push     */
 struct aws_priority_queue_node *g_q_pushed_bp;
@@ -542,8 +548,7 @@ __CPROVER_requires(g_now == current_time && g_expect_status == (int)status && !g
 __CPROVER_requires(g_asap_len > 0 ==> g_run_front_i < TSK && TS_HANDLE(&g_tk[g_run_front_i]) == SIZE_MAX &&
                                        (g_q_size > 0 ==> g_run_front_i != g_q_top_i) && (g_tl_len > 0 ==> g_run_front_i != g_tl_front_i))
 __CPROVER_requires(g_asap_len < ((size_t)1 << 62) && g_tl_len < ((size_t)1 << 62) && g_q_size < ((size_t)1 << 62) && g_moved_timed == 0)
-__CPROVER_assigns(g_ab, g_q_size, g_q_top_i, g_q_ntop)
-__CPROVER_assigns(g_sc.asap_list.head.next, g_sc.asap_list.tail.prev, g_sc.timed_list.head.next)
+__CPROVER_assigns(g_ab, g_q, g_sc.asap_list, g_sc.timed_list.head.next)
 __CPROVER_assigns(TS_A_FN_LOG, TS_A_ARENA_BUT_FN)
 __CPROVER_ensures(g_asap_len == 0 && g_run_len == 0 && g_swapped)
 __CPROVER_ensures(TS_HEADNEXT_OK(&g_sc.timed_list, g_tl_len, g_tl_front_i) && g_sc.asap_list.head.next == &g_sc.asap_list.tail)
